@@ -17,7 +17,9 @@ def replay(job):
     vp, old, pep = ENG[case["engine"]]
     n = case["n"]
     names = ["a%d.txt" % k for k in range(1, n + 1)]
-    entries = [(names[k], RAWS[:case["pats"][k]]) for k in range(n)]
+    # a third of the projects configure their files through globs that match exactly one file each (a removed file then is an unmatched glob)
+    keys = [("a%d.tx?" % (k + 1)) if seed % 3 == 0 else names[k] for k in range(n)]
+    entries = [(keys[k], RAWS[:case["pats"][k]]) for k in range(n)]
     cfg_pos = rng.randrange(0, n + 1)
     fault = case["fault"]
     with drive.scratch_dir("c06") as d:
@@ -45,7 +47,8 @@ def replay(job):
             fv.set(tags=[], status="", remote="", branches="")
             env = fv.env()
         before = proj.snapshot()
-        args = ["update", "--no-fetch"] + (["--dry"] if case["dry"] else [])
+        # a fifth of the runs with -v / -vv (with -vv `update` prints the diff like --dry and then goes on)
+        args = ["update"] + ([["-v"], ["-vv"]][seed % 2] if seed % 5 == 0 else []) + ["--no-fetch"] + (["--dry"] if case["dry"] else [])
         if fault["kind"] == "gate":
             args += ["--set-version", old]
         else:
